@@ -111,12 +111,12 @@ theorem schemaOf_safe {code : Nat} {ks : List FKind} (h : schemaOf code = some k
 /-! cursor bounds: a successful sub-parser leaves the cursor inside the buffer (needed because
 `data[pos..]` panics when `pos > data.len()`) -/
 
-theorem nameLoop_pos_le {d : Bytes} {s : NS} {n : Name} {p : Nat}
+theorem nameLoop_end_le {d : Bytes} {s : NS} {n : Name} {p : Nat}
     (h : nameLoop d s = .ok (n, p)) : p ≤ d.length := by
   fun_induction nameLoop d s <;> simp_all <;> omega
 
-theorem Name.parse_pos_le {d : Bytes} {pos : Nat} {n : Name} {p : Nat}
-    (h : Name.parse d pos = .ok (n, p)) : p ≤ d.length := nameLoop_pos_le h
+theorem Name.parse_end_le {d : Bytes} {pos : Nat} {n : Name} {p : Nat}
+    (h : Name.parse d pos = .ok (n, p)) : p ≤ d.length := nameLoop_end_le h
 
 theorem CharStr.parse_pos_le {d : Bytes} {pos : Nat} {s : Bytes} {p : Nat}
     (h : CharStr.parse d pos = .ok (s, p)) : p ≤ d.length := by
@@ -238,7 +238,7 @@ theorem decField_pos_le {d : Bytes} {k : FKind} {pos : Nat} {v : Val} {p : Nat}
   | name c =>
     simp only [decField] at h
     obtain ⟨⟨s, q⟩, hs, h⟩ := Out.bind_eq_ok h
-    have := Name.parse_pos_le hs
+    have := Name.parse_end_le hs
     simp at h; omega
   | rest =>
     simp only [decField] at h
@@ -308,7 +308,7 @@ theorem ipseckeyParse_ne_panic (d : Bytes) (pos : Nat) : ipseckeyParse d pos ≠
           · obtain ⟨s, _, hg⟩ := Out.bind_eq_ok hg
             simp at hg; omega
         · obtain ⟨⟨n, q⟩, hn, hg⟩ := Out.bind_eq_ok hg
-          have := Name.parse_pos_le hn
+          have := Name.parse_end_le hn
           simp at hg; omega
         · cases hg
       apply Out.bind_ne_panic (slice_ne_panic hp (Nat.le_refl _))
